@@ -7,7 +7,7 @@ from ..pipeline_prop import PipelineProp
 class C01(PipelineProp):
     pid = "C01"
     design_ref = "6/C01"
-    required_theorems = []
+    required_theorems = ['C01_conservation', 'C01_exactly_once', 'C01_qc_partition', 'C01_first_half', 'C01_second_half_keys']
 
     def rule(self):
         return (
